@@ -7,6 +7,7 @@ from ...core.matrixdata import MatrixData
 #from ...core.time import TimeAxis
 from ...utils.types import BasisManagedComplexArray
 from ...core.managers import BasisManaged
+from ...core.managers import energy_units
 from ...core.saveable import Saveable
 from ..hilbertspace.operators import DensityMatrix
 from ..hilbertspace.operators import ReducedDensityMatrix
@@ -128,7 +129,9 @@ class DensityMatrixEvolution(MatrixData, BasisManaged, Saveable):
         
         if (self.is_in_rwa and sgn == 1) or sgn == -1:
             
-            HOmega = ham.get_RWA_skeleton()
+            # frequencies of the frame multiply times in internal units
+            with energy_units("int"):
+                HOmega = ham.get_RWA_skeleton()
             
             # the rotating frame coincides with the laboratory frame at
             # the time of the initial condition (first point of the axis)
